@@ -149,7 +149,8 @@ CLAIMED = {
  "C02": dict(
    text="spec/Lineage.tla models registry, config, the per-context plugin cache exactly as the code keys it (context hash = config + "
         "registered versions), lineage keys and shared storage for four data types (src <- mid <- top, mid <- kid) with per-plugin tracked "
-        "options, an untracked option, an option shared by three plugins and a child plugin whose child option replaces its parent's option; TLC explores all histories up to a bound over {set_config, register "
+        "options, an untracked option, an option shared by three plugins, an option tracked by one plugin and untracked by another, and a "
+        "child plugin whose child option replaces its parent's option; TLC explores all histories up to a bound over {set_config, register "
         "(class variants), new_context, set fuzzy_for / fuzzy_for_options, get, key_for} and checks NoStaleRead (a get returns what a "
         "brand-new context would compute), FuzzyAccepts (under fuzzy matching stored data is accepted exactly when its lineage differs "
         "only in the fuzzy parts, exact match preferred), NothingWrittenUnderFuzzy, "
